@@ -265,11 +265,13 @@ Proof.
   { cbn [l_cell l_evicted set]. destruct (Hpost c6 eq_refl) as [H|H]; [left; exact H|right; exact H]. }
   destruct restore as [[n ex]|].
   - pose proof (srv_restore_app c6 n y ex x Hxy) as H7. destruct (srv_restore c6 n y ex) as [c7 ok7]. cbn [fst] in H7.
-    cbn [l_cell l_evicted set].
-    assert (H7' : app_of (c_upd_app y (fun z => z <| a_renew := true |>) c7) x = app_of c6 x)
-      by (rewrite upd_app_other by auto; exact H7).
-    destruct (Hpost _ H7') as [H|H]; [left; exact H|right; exact H].
-  - cbn [l_cell l_evicted set].
+    destruct ok7; [|unfold give_up]; cbn [l_cell l_evicted set].
+    + assert (H7' : app_of (c_upd_app y (fun z => z <| a_renew := true |>) c7) x = app_of c6 x)
+        by (rewrite upd_app_other by auto; exact H7).
+      destruct (Hpost _ H7') as [H|H]; [left; exact H|right; exact H].
+    + assert (H7' : app_of (release_identity c7 y) x = app_of c6 x) by (rewrite release_app by exact Hxy; exact H7).
+      destruct (Hpost _ H7') as [H|H]; [left; exact H|right; exact H].
+  - unfold give_up. cbn [l_cell l_evicted set].
     assert (H7' : app_of (release_identity c6 y) x = app_of c6 x) by (apply release_app; exact Hxy).
     destruct (Hpost _ H7') as [H|H]; [left; exact H|right; exact H].
 Qed.
@@ -600,15 +602,16 @@ Proof.
   destruct (id_group_exists _ HI _ _ _ Ha Eg) as (grp & Hgrp). rewrite Hgrp. split; discriminate.
 Qed.
 
-(** the four ways an instance can come out of its own turn *)
+(** the five ways an instance can come out of its own turn *)
 Definition own_result (st : loopst) (x : Z) (a a' : app) : Prop :=
   stat_eq a a' /\
   ( (a_server a' = a_server a /\ a_identity a' = a_identity a /\ (a_blacklisted a = true \/ a_server a <> None))
   \/ (a_server a' = None /\ no_id a')
-  \/ (exists sn ex, aget x (l_evicted st) = Some (sn, ex) /\ a_server a = None /\ a_server a' = Some sn /\ has_id a')
-  \/ (exists n s, a_server a' = Some n /\ a_server a = None /\
+  \/ (exists sn ex, aget x (l_evicted st) = Some (sn, ex) /\ a_server a' = Some sn /\ has_id a')
+  \/ (exists n s, a_server a' = Some n /\
                   get_srv n (c_servers (l_cell st)) = Some s /\ s_state s = Up /\
-                  guard_facts (l_cell st) s a /\ has_id a') ).
+                  guard_facts (l_cell st) s a /\ has_id a')
+  \/ (a_server a' = a_server a /\ a_server a <> None /\ a_renew a = true /\ has_id a') ).
 
 Lemma has_id_dyn a a' : dyn_eq a a' -> has_id a -> has_id a'.
 Proof.
@@ -616,12 +619,13 @@ Proof.
 Qed.
 
 (** the tail of the turn of a pending instance that holds an identity (or needs none) *)
-Lemma place_tail_own rq st x a c4 a4 ev1 :
+Lemma place_tail_own rq st x a c4 a4 ev1 restore :
   psteps (l_cell st) c4 -> Ident c4 -> app_of c4 x = Some a4 -> stat_eq a a4 -> a_server a4 = None -> has_id a4 ->
-  exists a', app_of (l_cell (place_tail rq st x c4 ev1 None)) x = Some a' /\ stat_eq a a' /\
+  exists a', app_of (l_cell (place_tail rq st x c4 ev1 restore)) x = Some a' /\ stat_eq a a' /\
     ( (a_server a' = None /\ no_id a')
     \/ (exists n s, a_server a' = Some n /\ get_srv n (c_servers (l_cell st)) = Some s /\ s_state s = Up /\
-                    guard_facts (l_cell st) s a /\ has_id a') ).
+                    guard_facts (l_cell st) s a /\ has_id a')
+    \/ (exists n ex, restore = Some (n, ex) /\ a_server a' = Some n /\ has_id a') ).
 Proof.
   intros Hp4 HI4 Ha4 Hst4 Hsv4 Hhas4. unfold place_tail.
   assert (Ha4' : get_app x (c_apps c4) = Some a4) by exact Ha4. rewrite Ha4'.
@@ -645,9 +649,10 @@ Proof.
             exists a', app_of cfin x = Some a' /\ stat_eq a a' /\
               ( (a_server a' = None /\ no_id a')
               \/ (exists n s, a_server a' = Some n /\ get_srv n (c_servers (l_cell st)) = Some s /\ s_state s = Up /\
-                              guard_facts (l_cell st) s a /\ has_id a') )).
+                              guard_facts (l_cell st) s a /\ has_id a')
+              \/ (exists n ex, restore = Some (n, ex) /\ a_server a' = Some n /\ has_id a') )).
   { intros cput n s1 a5 cfin Hpp Hs1 Hup Hg H5 Hd5 Hsv5.
-    exists a5. split; [exact H5|]. split; [eapply stat_eq_trans; [exact Hst4|apply dyn_stat; exact Hd5]|]. right.
+    exists a5. split; [exact H5|]. split; [eapply stat_eq_trans; [exact Hst4|apply dyn_stat; exact Hd5]|]. right. left.
     pose proof (get_srv_name _ _ _ Hs1) as Hn1. rewrite <- Hn1 in Hs1.
     destruct (guard_transfer (l_cell st) cput s1 a a4 (a_lease a4) (psteps_static _ _ Hpp) Hs1 Hup Hst4 eq_refl Hg)
       as (s0 & Hs0 & Hup0 & Hgf).
@@ -668,22 +673,37 @@ Proof.
     destruct (evict_scan rq x c5 ev1) as [c6 ev2]. cbn [fst] in Hscan, Hp6.
     destruct (scan_placer_self _ _ _ _ Hscan Hself) as [H6|(c1 & n & s1 & a6 & Hpp & Hs1 & Hup & Hg & H6 & Hd6 & Hsv6)].
     + (* nothing worked: the identity goes back *)
-      assert (E6 : get_app x (c_apps c6) = Some a4) by exact H6. rewrite E6, Hsv4. cbn [l_cell set].
+      assert (E6 : get_app x (c_apps c6) = Some a4) by exact H6. rewrite E6, Hsv4.
       assert (Hp6' : psteps (l_cell st) c6) by (eapply ps_trans; [exact Hp4|eapply ps_trans; eassumption]).
       assert (HI6 : Ident c6) by (eapply Ident_psteps; [eapply ps_trans; [exact Hp5|exact Hp6]|exact HI4]).
-      destruct (Hrel c6 Hp6' HI6 a4 H6 Hst4 Hsv4) as (a' & H1 & H2 & H3 & H4).
-      exists a'. split; [exact H1|]. split; [exact H2|]. left. auto.
+      destruct restore as [[rn rex]|].
+      * (* back to the server of the failed renewal, if it still takes the instance *)
+        destruct (srv_restore_self c6 rn x rex a4 H6) as (a7 & Ha7 & Hd7 & Hsv7).
+        pose proof (srv_restore_ps c6 rn x rex) as Hp7.
+        destruct (srv_restore c6 rn x rex) as [c7 ok7]. cbn [fst snd] in *.
+        destruct ok7.
+        -- cbn [l_cell set]. eexists. split; [apply upd_app_self; [reflexivity|exact Ha7]|].
+           split; [eapply stat_eq_trans; [exact Hst4|]; eapply stat_eq_trans; [apply dyn_stat; exact Hd7|repeat split]|].
+           right. right. exists rn, rex. split; [reflexivity|]. split; [exact Hsv7|].
+           pose proof (has_id_dyn _ _ Hd7 Hhas4) as [Hg|Hn]; [left; exact Hg|right; exact Hn].
+        -- unfold give_up. cbn [l_cell set].
+           destruct (Hrel c7 (ps_trans _ _ _ Hp6' Hp7) (Ident_psteps _ _ Hp7 HI6) a7 Ha7
+                          (stat_eq_trans _ _ _ Hst4 (dyn_stat _ _ Hd7)) (eq_trans Hsv7 Hsv4)) as (a' & H1 & H2 & H3 & H4).
+           exists a'. split; [exact H1|]. split; [exact H2|]. left. auto.
+      * unfold give_up. cbn [l_cell set].
+        destruct (Hrel c6 Hp6' HI6 a4 H6 Hst4 Hsv4) as (a' & H1 & H2 & H3 & H4).
+        exists a'. split; [exact H1|]. split; [exact H2|]. left. auto.
     + assert (E6 : get_app x (c_apps c6) = Some a6) by exact H6. rewrite E6, Hsv6. cbn [l_cell set].
       apply (Hplaced c1 n s1 a6 c6); try assumption.
       eapply ps_trans; [exact Hp4|]. eapply ps_trans; [exact Hp5|exact Hpp].
 Qed.
 
 Theorem place_one_own rq st x a :
-  Acct (l_cell st) -> Ident (l_cell st) -> app_of (l_cell st) x = Some a -> a_renew a = false ->
+  Acct (l_cell st) -> Ident (l_cell st) -> app_of (l_cell st) x = Some a ->
   (forall n, a_server a = Some n -> exists s, get_srv n (c_servers (l_cell st)) = Some s) ->
   exists a', app_of (l_cell (place_one rq st x)) x = Some a' /\ own_result st x a a'.
 Proof.
-  intros HA HI Ha Hren Hmem. unfold own_result, place_one.
+  intros HA HI Ha Hmem. unfold own_result, place_one.
   assert (Ha' : get_app x (c_apps (l_cell st)) = Some a) by exact Ha. rewrite Ha'.
   destruct (a_blacklisted a) eqn:Ebl.
   { exists a. split; [exact Ha|]. split; [apply stat_eq_refl|]. left. auto. }
@@ -705,19 +725,45 @@ Proof.
       destruct Hid2 as [Hn|[Hg Hn]]; [right; exact Hn|].
       left. destruct Hs2 as (_ & _ & _ & _ & _ & _ & _ & _ & Hgr & _). rewrite Hgr.
       apply (proj1 (group_none_iff _ _ _ HI Ha)). exact Hg. }
-  rewrite Hren.
-  set (c2 := c_upd_app x (fun z => z <| a_renew := false |>) (l_cell st)).
-  set (a2 := a <| a_renew := false |>).
-  assert (Ha2 : app_of c2 x = Some a2) by (apply upd_app_self; [reflexivity|exact Ha]).
-  assert (Hd2 : dyn_eq a a2) by (repeat split).
-  assert (Hp2 : psteps (l_cell st) c2) by (apply ps_one, PS_soft, soft_renew).
+  (* the renewal: either nothing happens to the placement, or the instance leaves its server for this turn *)
+  set (cr := if a_renew a
+             then match a_server a with
+                  | Some n => let '(cr, ok) := srv_renew (l_cell st) n x in
+                              if ok then (cr, None) else (srv_remove cr n x, Some (n, a_expiry a))
+                  | None => (l_cell st, None)
+                  end
+             else (l_cell st, None)).
+  assert (Hcr : psteps (l_cell st) (fst cr) /\ exists a1, app_of (fst cr) x = Some a1 /\ dyn_eq a a1 /\
+            ( (snd cr = None /\ a_server a1 = a_server a) \/
+              (exists n, snd cr = Some (n, a_expiry a) /\ a_server a = Some n /\ a_renew a = true /\ a_server a1 = None) )).
+  { subst cr. destruct (a_renew a) eqn:Hren.
+    2:{ cbn [fst snd]. split; [apply ps_refl|]. exists a. split; [exact Ha|]. split; [apply dyn_eq_refl|left; auto]. }
+    destruct (a_server a) as [n|] eqn:Esv.
+    2:{ cbn [fst snd]. split; [apply ps_refl|]. exists a. split; [exact Ha|]. split; [apply dyn_eq_refl|left; auto]. }
+    destruct (Hmem n eq_refl) as (s & Es).
+    pose proof (srv_renew_ps (l_cell st) n x) as Hp.
+    unfold srv_renew in *. rewrite Es, Ha' in *.
+    destruct (check_lifetime (l_cell st) a (a_lease a) s); cbn [fst snd] in *.
+    - split; [exact Hp|]. eexists. split; [apply upd_app_self; [reflexivity|exact Ha]|]. split; [repeat split|].
+      left. split; [reflexivity|]. cbn. exact Esv.
+    - assert (Hin : In x (s_apps s)) by (eapply (ac_placed _ HA); eassumption).
+      split; [apply srv_remove_ps|]. exists (removed a). split; [exact (srv_remove_self _ _ _ _ _ Es Ha Hin)|].
+      split; [apply removed_dyn|]. right. exists n. auto. }
+  destruct cr as [c1 restore]. cbn [fst snd] in Hcr. destruct Hcr as (Hp1 & a1 & Ha1 & Hd1 & Hwhich).
+  set (c2 := c_upd_app x (fun z => z <| a_renew := false |>) c1).
+  set (a2 := a1 <| a_renew := false |>).
+  assert (Ha2 : app_of c2 x = Some a2) by (apply upd_app_self; [reflexivity|exact Ha1]).
+  assert (Hd2 : dyn_eq a a2) by (eapply dyn_eq_trans; [exact Hd1|repeat split]).
+  assert (Hp2 : psteps (l_cell st) c2) by (eapply ps_trans; [exact Hp1|apply ps_one, PS_soft, soft_renew]).
   assert (Ha2' : get_app x (c_apps c2) = Some a2) by exact Ha2. rewrite Ha2'.
   destruct (a_server a2) as [n0|] eqn:Esv2.
-  { (* already placed: stays *)
+  { (* still placed: stays *)
     exists a2. cbn [l_cell set]. split; [exact Ha2|]. split; [apply dyn_stat; exact Hd2|]. left.
-    assert (E : a_server a = Some n0) by exact Esv2.
-    split; [rewrite E; exact Esv2|]. split; [reflexivity|]. right. rewrite E. discriminate. }
-  assert (Esv : a_server a = None) by exact Esv2.
+    assert (E1 : a_server a1 = Some n0) by exact Esv2.
+    destruct Hwhich as [[_ E]|(n & _ & _ & _ & E)]; [|congruence].
+    split; [congruence|]. split; [destruct Hd2 as (_ & _ & _ & _ & _ & _ & _ & _ & _ & _ & _ & _ & _ & Hi); exact Hi|].
+    right. congruence. }
+  assert (Esv1 : a_server a1 = None) by exact Esv2.
   assert (HI2 : Ident c2) by (eapply Ident_psteps; eassumption).
   destruct (acquire_self c2 x (aget x (l_choices st)) a2 Ha2)
     as [(Hgot & Hc3 & Hidn & Hgrp)|(Hgot & a3 & Ha3 & Hs3 & Hsv3 & Hex3 & Hev3 & Hid3)].
@@ -735,19 +781,24 @@ Proof.
   { destruct Hid3 as [Hg|Hn]; [left|right; exact Hn].
     destruct Hs3 as (_ & _ & _ & _ & _ & _ & _ & _ & Hgr & _). rewrite Hgr.
     apply (proj1 (group_none_iff _ _ _ HI2 Ha2)). exact Hg. }
-  (* the tail: shapes two and four *)
+  (* the tail: shapes two, four and five *)
   assert (Htail : forall c4 a4 ev1, psteps (l_cell st) c4 -> Ident c4 -> app_of c4 x = Some a4 -> stat_eq a a4 ->
             a_server a4 = None -> has_id a4 ->
-            exists a', app_of (l_cell (place_tail rq st x c4 ev1 None)) x = Some a' /\ stat_eq a a' /\
+            exists a', app_of (l_cell (place_tail rq st x c4 ev1 restore)) x = Some a' /\ stat_eq a a' /\
               ((a_server a' = a_server a /\ a_identity a' = a_identity a /\ (false = true \/ a_server a <> None)) \/
                (a_server a' = None /\ no_id a') \/
-               (exists sn ex, aget x (l_evicted st) = Some (sn, ex) /\ a_server a = None /\ a_server a' = Some sn /\ has_id a') \/
-               (exists n s, a_server a' = Some n /\ a_server a = None /\ get_srv n (c_servers (l_cell st)) = Some s /\
-                            s_state s = Up /\ guard_facts (l_cell st) s a /\ has_id a'))).
+               (exists sn ex, aget x (l_evicted st) = Some (sn, ex) /\ a_server a' = Some sn /\ has_id a') \/
+               (exists n s, a_server a' = Some n /\ get_srv n (c_servers (l_cell st)) = Some s /\
+                            s_state s = Up /\ guard_facts (l_cell st) s a /\ has_id a') \/
+               (a_server a' = a_server a /\ a_server a <> None /\ a_renew a = true /\ has_id a'))).
   { intros c4 a4 ev1 Hp4 HI4 Ha4 Hst4 Hsv4 Hhas4.
-    destruct (place_tail_own rq st x a c4 a4 ev1 Hp4 HI4 Ha4 Hst4 Hsv4 Hhas4) as (a' & H1 & H2 & [H3|(n & s & H3 & H4 & H5 & H6 & H7)]).
+    destruct (place_tail_own rq st x a c4 a4 ev1 restore Hp4 HI4 Ha4 Hst4 Hsv4 Hhas4)
+      as (a' & H1 & H2 & [H3|[(n & s & H3 & H4 & H5 & H6 & H7)|(n & ex & H3 & H4 & H5)]]).
     - exists a'. split; [exact H1|]. split; [exact H2|]. right. left. exact H3.
-    - exists a'. split; [exact H1|]. split; [exact H2|]. right. right. right. exists n, s. auto 10. }
+    - exists a'. split; [exact H1|]. split; [exact H2|]. right. right. right. left. exists n, s. auto 10.
+    - exists a'. split; [exact H1|]. split; [exact H2|]. right. right. right. right.
+      destruct Hwhich as [[E _]|(n1 & E & Esn & Ern & _)]; [congruence|].
+      rewrite E in H3. inversion H3; subst n1. split; [congruence|]. split; [congruence|]. split; [exact Ern|exact H5]. }
   destruct (aget x (l_evicted st)) as [[sn ex]|] eqn:Eev.
   - destruct (srv_restore_self c3 sn x ex a3 Ha3) as (a4 & Ha4 & Hd4 & Hsv4).
     pose proof (srv_restore_ps c3 sn x ex) as Hp4.
@@ -756,7 +807,7 @@ Proof.
     + (* restored *)
       cbn [l_cell set]. eexists. split; [apply upd_app_self; [reflexivity|exact Ha4]|].
       split; [eapply stat_eq_trans; [exact Hst3|]; eapply stat_eq_trans; [apply dyn_stat; exact Hd4|repeat split]|].
-      right. right. left. exists sn, ex. split; [reflexivity|]. split; [exact Esv|]. split; [exact Hsv4|].
+      right. right. left. exists sn, ex. split; [reflexivity|]. split; [exact Hsv4|].
       pose proof (has_id_dyn _ _ Hd4 Hhas3) as [Hg|Hn]; [left; exact Hg|right; exact Hn].
     + (* restore failed: goes on as a pending instance *)
       apply (Htail c4 a4).
@@ -877,7 +928,6 @@ Proof. induction 1; [apply Mem_pstep; assumption|tauto|tauto]. Qed.
 
 Record pre_ok (c : cell) (x : Z) (a : app) : Prop := {
   po_app : app_of c x = Some a;
-  po_renew : a_renew a = false;
   po_id : a_server a <> None -> has_id a;
   po_bl : a_blacklisted a = true -> a_server a = None /\ no_id a
 }.
@@ -918,14 +968,15 @@ Record loop_inv (c : cell) (st : loopst) (pre post : list Z) : Prop := {
   li_todo : forall x a, In x post -> pre_ok c x a ->
       (app_of (l_cell st) x = Some a /\ aget x (l_evicted st) = None) \/
       (exists sn, a_server a = Some sn /\ app_of (l_cell st) x = Some (removed a) /\
-                  aget x (l_evicted st) = Some (sn, a_expiry a))
+                  aget x (l_evicted st) = Some (sn, a_expiry a));
+  li_out : forall x, ~ In x (pre ++ post) -> app_of (l_cell st) x = app_of c x
 }.
 
 Lemma loop_step c q pre y post st :
   q = pre ++ y :: post -> NoDup q -> loop_inv c st pre (y :: post) ->
   loop_inv c (place_one (rev q) st y) (pre ++ [y]) post.
 Proof.
-  intros Hq Hnd [J1 J2 J3 J4 J5 J6].
+  intros Hq Hnd [J1 J2 J3 J4 J5 J6 J7].
   pose proof (place_one_ps (rev q) st y) as Hps.
   assert (Hbp : before_placer (rev q) y = rev post) by (rewrite Hq; apply before_placer_rev; rewrite <- Hq; exact Hnd).
   assert (Hy_pre : ~ In y pre) by (rewrite Hq in Hnd; apply NoDup_remove_2 in Hnd; intros H; apply Hnd; apply in_or_app; left; exact H).
@@ -948,10 +999,10 @@ Proof.
       rewrite Hbp in Hbad. apply in_rev in Hbad. exfalso. eapply Hdisj; eassumption.
     + (* the instance whose turn it is *)
       destruct (J6 y a (or_introl eq_refl) Hpo) as [[Hcur Hev]|(sn & Hsv & Hcur & Hev)].
-      * destruct (place_one_own (rev q) st y a J2 J3 Hcur (po_renew _ _ _ Hpo)) as (a' & Ha' & Hst & Hres).
+      * destruct (place_one_own (rev q) st y a J2 J3 Hcur) as (a' & Ha' & Hst & Hres).
         { intros n Hn. eapply J4; eassumption. }
         exists a'. split; [exact Ha'|]. split; [exact Hst|].
-        destruct Hres as [(Hs & Hi & Hwhy)|[(Hs & Hn)|[(sn & ex & Hev' & _)|(n & s & Hs & Hs0 & Hg & Hup & Hgf & Hh)]]].
+        destruct Hres as [(Hs & Hi & Hwhy)|[(Hs & Hn)|[(sn & ex & Hev' & _)|[(n & s & Hs & Hg & Hup & Hgf & Hh)|(Hs & Hne & _ & Hh)]]]].
         -- split; [|split].
            ++ intros H0. rewrite Hs in H0. destruct Hwhy as [Hbl|Hne]; [|contradiction].
               eapply no_id_stat; [exact Hst|exact Hi|]. apply (po_bl _ _ _ Hpo Hbl).
@@ -963,12 +1014,13 @@ Proof.
         -- split; [intros H0; rewrite Hs in H0; discriminate|]. split; [intros _; exact Hh|].
            intros n' H1 _. rewrite Hs in H1. inversion H1; subst n'.
            eapply guard_facts_back; [apply psteps_static; exact J1|exact Hg|exact Hup|apply stat_eq_refl|exact Hgf].
-      * assert (Hren : a_renew (removed a) = false) by (cbn; apply (po_renew _ _ _ Hpo)).
-        destruct (place_one_own (rev q) st y (removed a) J2 J3 Hcur Hren) as (a' & Ha' & Hst & Hres).
+        -- split; [intros H0; rewrite Hs in H0; contradiction|]. split; [intros _; exact Hh|].
+           intros n H1 H2. rewrite Hs in H1. contradiction.
+      * destruct (place_one_own (rev q) st y (removed a) J2 J3 Hcur) as (a' & Ha' & Hst & Hres).
         { intros n Hn. cbn in Hn. discriminate. }
         assert (Hst' : stat_eq a a') by (eapply stat_eq_trans; [apply dyn_stat, removed_dyn|exact Hst]).
         exists a'. split; [exact Ha'|]. split; [exact Hst'|].
-        destruct Hres as [(Hs & Hi & Hwhy)|[(Hs & Hn)|[(sn' & ex' & Hev' & _ & Hs & Hh)|(n & s & Hs & _ & Hg & Hup & Hgf & Hh)]]].
+        destruct Hres as [(Hs & Hi & Hwhy)|[(Hs & Hn)|[(sn' & ex' & Hev' & Hs & Hh)|[(n & s & Hs & Hg & Hup & Hgf & Hh)|(_ & Hne & _)]]]].
         -- exfalso. destruct Hwhy as [Hbl|Hne]; [|apply Hne; reflexivity].
            cbn in Hbl. destruct (po_bl _ _ _ Hpo Hbl) as [H0 _]. congruence.
         -- split; [intros _; exact Hn|]. split; [intros H0; rewrite Hs in H0; contradiction|].
@@ -979,6 +1031,7 @@ Proof.
         -- split; [intros H0; rewrite Hs in H0; discriminate|]. split; [intros _; exact Hh|].
            intros n' H1 _. rewrite Hs in H1. inversion H1; subst n'.
            eapply guard_facts_back; [apply psteps_static; exact J1|exact Hg|exact Hup|apply dyn_stat, removed_dyn|exact Hgf].
+        -- exfalso. apply Hne. reflexivity.
   - (* instances still to come *)
     intros x a Hin Hpo.
     assert (Hxy : x <> y) by (intros ->; contradiction).
@@ -989,6 +1042,12 @@ Proof.
     + destruct (place_one_other (rev q) st y x J2 Hxy) as [[H1 H2]|(_ & a0 & sn0 & s & Ha0 & Hsv0 & _)].
       * right. exists sn. split; [exact Hsv|]. split; [rewrite H1; exact Hcur|rewrite H2; exact Hev].
       * rewrite Hcur in Ha0. inversion Ha0; subst a0. cbn in Hsv0. discriminate.
+  - (* instances outside the queue *)
+    intros x Hx. assert (Hxq : ~ In x q) by (rewrite Hq; intros H; apply Hx; rewrite <- app_assoc; exact H).
+    assert (Hxy : x <> y) by (intros ->; apply Hxq; rewrite Hq; apply in_or_app; right; left; reflexivity).
+    destruct (place_one_other (rev q) st y x J2 Hxy) as [[H _]|(Hbad & _)].
+    + rewrite H. apply J7. rewrite <- Hq. exact Hxq.
+    + exfalso. rewrite Hbp in Hbad. apply in_rev in Hbad. apply Hxq. rewrite Hq. apply in_or_app. right. right. exact Hbad.
 Qed.
 
 Theorem find_placements_final c q ch :
@@ -1003,10 +1062,25 @@ Proof.
     - rewrite app_nil_r in Hq. subst pre. exact HJ.
     - apply (IH (pre ++ [y])); [rewrite <- app_assoc; exact Hq|]. eapply loop_step; eassumption. }
   assert (H0 : loop_inv c (mkLoop c [] [] ch) [] q).
-  { constructor; cbn [l_cell l_evicted]; try assumption; [apply ps_refl|intros x a []|].
+  { constructor; cbn [l_cell l_evicted]; try assumption; [apply ps_refl|intros x a []| |reflexivity].
     intros x a _ Hpo. left. split; [apply (po_app _ _ _ Hpo)|reflexivity]. }
   pose proof (G q [] _ eq_refl H0) as HJ.
   intros x a Hin Hpo. exact (li_done _ _ _ _ HJ x a Hin Hpo).
+Qed.
+
+Theorem find_placements_frame c q ch x :
+  NoDup q -> Acct c -> Ident c -> Mem c -> ~ In x q -> app_of (find_placements c q ch) x = app_of c x.
+Proof.
+  intros Hnd HA HI HM Hx. unfold find_placements.
+  assert (G : forall post pre st, q = pre ++ post -> loop_inv c st pre post ->
+              loop_inv c (fold_left (place_one (rev q)) post st) q []).
+  { induction post as [|y post IH]; intros pre st Hq HJ; cbn [fold_left].
+    - rewrite app_nil_r in Hq. subst pre. exact HJ.
+    - apply (IH (pre ++ [y])); [rewrite <- app_assoc; exact Hq|]. eapply loop_step; eassumption. }
+  assert (H0 : loop_inv c (mkLoop c [] [] ch) [] q).
+  { constructor; cbn [l_cell l_evicted]; try assumption; [apply ps_refl|intros y a []| |reflexivity].
+    intros y a _ Hpo. left. split; [apply (po_app _ _ _ Hpo)|reflexivity]. }
+  pose proof (G q [] _ eq_refl H0) as HJ. apply (li_out _ _ _ _ HJ). rewrite app_nil_r. exact Hx.
 Qed.
 
 (** ** the phases before the queue: what they can do to one instance *)
